@@ -282,6 +282,37 @@ def _forms(repo, col):
     dg = next((n for n in ast.walk(fi.node) if isinstance(n, ast.Call) and unparse(n.func).endswith("digitize")), None)
     ok = dg is not None and [unparse(a) for a in dg.args[:2]] == ["loc", "cutoffs"]
     col.check(ok, R, fi, "_radius: the bracket is found by digitize(loc, cutoffs)", "", f"digitize call {unparse(dg) if dg else None}", node=dg or fi.node)
+    # ---- the cut-offs the interpolation brackets with: cumulative traced lengths WITH the leading 0, as fractions of the total
+    #      (n traced points -> n radii -> n cut-offs 0 = c_0 < ... < c_{n-1} = 1; without the 0 the k-th radius sits at the END of
+    #      segment k and every radius is read one traced point too early)
+    gf = repo.func(CU, "_radius_generating_fn")
+    gex = idx.expander(repo, gf)
+    gr = gex.returns[-1] if gex.returns else None
+    ct = gr.kw.get("cutoffs") if gr is not None and gr.op in ("call", "mcall") else None
+    if ct is None:
+        col.unk("R-C16-forms", gf, "_radius_generating_fn: cut-offs", "the cut-offs handed to _radius were not found", node=gf.node)
+    else:
+        is_zero = lambda z: T.find(z, lambda y: y.op == "const" and y.name in (0, 0.0)) is not None and \
+            T.find(z, lambda y: y.op == "param") is None
+        num = ct.args[0] if (ct.op == "binop" and ct.name == "/") else None
+        cs = T.find(num, lambda x: x.op in ("mcall", "call") and x.name in ("cumsum", "cumsum_leading_zero")) if num is not None else None
+        lead = False
+        if cs is not None and cs.name == "cumsum_leading_zero":
+            lead = True
+        elif cs is not None:
+            inner = T.find(cs, lambda x: x is not cs and x.op == "mcall" and x.name in ("concatenate", "hstack", "append", "insert", "pad"))
+            outer = T.find(num, lambda x: x.op == "mcall" and x.name in ("concatenate", "hstack", "append", "insert", "pad") and T.find(x, lambda y: y is cs) is not None)
+            for c_ in (inner, outer):
+                if c_ is not None:
+                    parts = c_.args[1].args if (len(c_.args) > 1 and c_.args[1].op in ("list", "tuple")) else [a_ for a_ in c_.args if a_.op != "free"]
+                    lead = lead or (bool(parts) and is_zero(parts[0])) or c_.name in ("insert", "pad")
+        norm = ct.op == "binop" and ct.name == "/" and T.find(ct.args[1], lambda x: x.op in ("mcall", "call") and x.name == "sum") is not None
+        col.add("R-C16-forms", gf, "_radius_generating_fn: cut-offs are the cumulative lengths with a leading 0, divided by the total length",
+                "DISCHARGED" if (lead and norm) else ("VIOLATED" if (cs is not None and not lead) or (cs is not None and not norm) else "UNDECIDED"),
+                "cumsum([0, *lengths]) / sum(lengths)" if (lead and norm) else
+                f"the cut-offs are `{ct.short(90)}`" + ("; the leading 0 is missing: n radii are bracketed with n - 1 interior cut-offs shifted by one segment, so "
+                                                        "every location reads the radii of the neighbouring traced points" if cs is not None and not lead else
+                                                        ("; they are not normalised by the total length" if cs is not None else "")), node=gf.node)
     # ---- compartment centres
     fi = repo.func(CU, "build_radiuses_from_xyzr")
     ev = kin.new_eval(repo)
